@@ -253,6 +253,8 @@ class Gen:
         if p == "builtin_f":
             f = rng.choice(["abs", "min", "max", "clamp", "floor", "ceil", "trunc", "round", "sign", "fma", "saturate"])
             n = {"min": 2, "max": 2, "clamp": 3, "fma": 3}.get(f, 1)
+            if f == "clamp":
+                return self.fclamp(env, t, d)
             return {"e": "builtin", "f": f, "args": [self.expr(env, t, d) for _ in range(n)]}
         if p == "conv":
             src = rng.choice([s for s in SCALARS if s != t and (s != "f32" or self.o["floats"])])
@@ -309,12 +311,22 @@ class Gen:
                 return {"e": "un", "op": "!", "a": self.expr(env, t, d)}
             f = rng.choice(["abs", "min", "max", "clamp"] + (["floor", "ceil"] if t[2] == "f32" else ["countOneBits"]))
             n = {"min": 2, "max": 2, "clamp": 3}.get(f, 1)
+            if f == "clamp" and t[2] == "f32":
+                return self.fclamp(env, t, d)
             return {"e": "builtin", "f": f, "args": [self.expr(env, t, d) for _ in range(n)]}
         if p == "matvec" and self.o["matrices"]:
             # mat(c x r) * vec(c) -> vec(r)
             c = rng.range(2, 4)
             return {"e": "bin", "op": "*", "a": self.expr(env, ["mat", c, t[1]], d), "b": self.expr(env, ["vec", c, "f32"], d)}
         return self.construct(env, t, d)
+
+    def fclamp(self, env, t, d):
+        """float clamp with low <= high (WGSL leaves the choice between two formulas open otherwise)"""
+        a = self.expr(env, t, max(0, d - 1))
+        b = self.expr(env, t, 0)
+        return {"e": "builtin", "f": "clamp", "args": [self.expr(env, t, d),
+                                                        {"e": "builtin", "f": "min", "args": [a, b]},
+                                                        {"e": "builtin", "f": "max", "args": [a, b]}]}
 
     def arg_for(self, env, t, d):
         if isinstance(t, list) and t[0] == "ptr":
@@ -495,6 +507,9 @@ class Gen:
             env2 = dict(env)
             body = self.block(env2, rng.range(1, 3), depth - 1, True, ret_t, False, allow_return)
             cont = [{"s": "incr", "l": {"e": "var", "n": i}}]
+            if getattr(self, "tick", None) and rng.chance(2, 3):
+                # counter advanced through the helper: k = tick(k)
+                cont = [{"s": "assign", "l": {"e": "var", "n": i}, "e": {"e": "call", "f": "tick", "args": [{"e": "var", "n": i}]}}]
             if rng.chance(1, 2):
                 lvs = [x for x in self.lvalues(env) if x[1] in ("i32", "u32")]
                 if lvs:
@@ -576,6 +591,15 @@ class Gen:
             self.consts.append({"n": n, "t": t, "e": self.const_expr(t)})
             env[n] = (t, "const")
         self._idx_sources = []
+        # a helper that is the SOLE user of its own buffer and is called only from continuing blocks
+        self.tick = None
+        if self.o.get("cont_call", True) and self.o["loops"] and rng.chance(1, 2):
+            self.globals.append({"n": "gtick", "space": "storage_rw", "t": ["arr", 2, "u32"], "group": 1, "binding": binding})
+            binding += 1
+            self.funcs.append({"n": "tick", "params": [{"n": "k", "t": "u32"}], "ret": "u32",
+                               "body": [{"s": "compound", "op": "+", "l": {"e": "idx", "a": {"e": "var", "n": "gtick"}, "i": lit("i32", 0)}, "e": {"e": "var", "n": "k"}},
+                                        {"s": "return", "e": {"e": "bin", "op": "+", "a": {"e": "var", "n": "k"}, "b": lit("u32", 1)}}]})
+            self.tick = "tick"
         # helper functions (callable from later functions and main; no recursion)
         for k in range(rng.range(0, self.o["n_helpers"])):
             self.helper(env, k)
